@@ -11,7 +11,7 @@ From RU Require Import Base.Prelude Base.Utf8 Base.Utf8Facts Model.AsciiSet Gen.
   Proofs.C01_EqClasses Proofs.C01_EqAuthSpec Proofs.C01_EqAuthModel Proofs.C01_EqAuth Proofs.C01_EqClasses2
   Proofs.C01_EqRel Proofs.C01_EqRelPath Proofs.C01_EqRelArms Proofs.C01_EqRelBase
   Proofs.C01_EqSpSpec Proofs.C01_EqSpPath Proofs.C01_EqSpModel Proofs.C01_EqSp
-  Proofs.C01_EqAbs Proofs.C01_EqSpBase Proofs.C01_EqAsm.
+  Proofs.C01_EqAbs Proofs.C01_EqSpBase Proofs.C01_EqSpBare Proofs.C01_EqAsm.
 
 Definition base_shape_ok (sb : spec_url) : bool :=
   negb (is_special_scheme (su_scheme sb)) || list_eqb (su_scheme sb) str_file || sp_base_ok sb.
@@ -137,6 +137,14 @@ Proof.
   rewrite Eh. reflexivity.
 Qed.
 
+Lemma shape_bare_result sb R : su_scheme (bare_result sb R) = su_scheme sb /\ su_host (bare_result sb R) = su_host sb
+  /\ has_opaque_path (bare_result sb R) = has_opaque_path sb.
+Proof.
+  unfold bare_result. destruct R as [|c r]; [destruct sb; repeat split|].
+  destruct (c =? 63); [|destruct sb; repeat split].
+  unfold ref_result. destruct (option_map (upe in_fragment_set) (C01_EqRun.after_hash r)); destruct sb; repeat split.
+Qed.
+
 (* ================= no base ================= *)
 Section Shapes.
 Variable shp : bool -> list N -> option spec_host.
@@ -250,7 +258,8 @@ Proof.
   apply shape_sp. unfold in_class_relative_s in Hc. apply orb_true_iff in Hc.
   destruct Hc as [Hc|Hc];
     [apply orb_true_iff in Hc; destruct Hc as [Hc|Hc];
-     [apply orb_true_iff in Hc; destruct Hc as [Hc|Hc]; [apply orb_true_iff in Hc; destruct Hc as [Hc|Hc]|]|]|].
+     [apply orb_true_iff in Hc; destruct Hc as [Hc|Hc];
+      [apply orb_true_iff in Hc; destruct Hc as [Hc|Hc]; [apply orb_true_iff in Hc; destruct Hc as [Hc|Hc]|]|]|]|].
   - unfold in_class_rel_abs_s in Hc. apply andb_true_iff in Hc. destruct Hc as [Hb Hok].
     destruct (sp_base_ok_facts sb Hb) as (Hop & Hsp & Hnf & h & Eh).
     destruct (spec_clean input) as [|c t] eqn:Ecl; [discriminate Hok|].
@@ -282,6 +291,9 @@ Proof.
     destruct (same_abs_s_spec shp input sb Hc) as [t K]. rewrite K in HS. inversion HS. apply rel_path_result_s_shape. exact Hb.
   - assert (sp_base_ok sb = true) as Hb by (unfold in_class_same_path_s in Hc; apply andb_true_iff in Hc; tauto).
     destruct (same_path_s_spec shp input sb Hc) as [t K]. rewrite K in HS. inversion HS. apply rel_path_result_s_shape. exact Hb.
+  - assert (sp_base_ok sb = true) as Hb by (unfold in_class_same_bare in Hc; apply andb_true_iff in Hc; tauto).
+    destruct (same_bare_spec (fun _ => Err EmptyHost) (fun _ => Err EmptyHost) shp (fun _ => []) input sb Hc) as [R0 K]. rewrite K in HS. inversion HS.
+    unfold sp_base_ok in *. destruct (shape_bare_result sb R0) as (-> & -> & ->). exact Hb.
 Qed.
 
 End Shapes.
